@@ -204,7 +204,7 @@ theorem sq_connectionFailed (s : Sess) : Quiet s (s.connectionFailed) := by
   split
   · exact (((sq_setRetry s _).trans (sq_closeConn _)).trans (sq_setSt _ _)).trans (sq_connectionClosed _ _)
   · exact (sq_setRetry s _).trans (sq_setSt _ _)
-  · exact (((sq_closeConn s).trans (sq_setRetry _ _)).trans (sq_setSt _ _)).trans (sq_connectionClosed _ _)
+  · exact ((((sq_closeConn s).trans (sq_setRetry _ _)).trans (sq_setHold _ _)).trans (sq_setSt _ _)).trans (sq_connectionClosed _ _)
   · exact sq_errorClose _
   · exact sq_errorClose _
   · exact Quiet.refl _
